@@ -193,8 +193,11 @@ class Ctx:
         return bool(d)
 
     # -- obligations ------------------------------------------------------
-    def check(self, name: str, cond, detail: str = "", kind: str = "obligation", known=(), witness=None) -> bool:
+    def check(self, name: str, cond, detail: str = "", kind: str = "obligation", known=(), witness=None, also_as=()) -> bool:
         """Proof obligation: pc |= cond.  Afterwards cond is assumed.
+
+        also_as: further names under which the SAME obligation instance is recorded (one logical obligation that two
+        properties rely on: a unit shared with `also=` counts only the names of the property being run).
 
         known: [(finding_id, class_cond)] - counterexample classes recorded in known_findings.json.  A
         refutation is reported as 'known' only if the finding id is listed there with status "known" AND
@@ -203,6 +206,21 @@ class Ctx:
         witness: dict of extra terms whose model values are recorded with a counterexample."""
         if self.dead:
             return True
+        n_before = len(self.obls)
+        try:
+            return self._check_obligation(name, cond, detail, kind, known, witness)
+        finally:
+            if also_as:
+                import copy
+
+                for o in list(self.obls[n_before:]):
+                    if o.name == name:
+                        for alias in also_as:
+                            o2 = copy.copy(o)
+                            o2.name = alias
+                            self.obls.append(o2)
+
+    def _check_obligation(self, name, cond, detail, kind, known, witness) -> bool:
         t0 = time.time()
         c = _term_bool(cond)
         if isinstance(c, bool):
